@@ -287,7 +287,7 @@ func init() {
 			// workers + queue, so the drain inside Stop does not depend on that handler)
 			out = append(out, "w=1,q=1,r=2,stop=2,late=0,y=0,gate=1,c=0", "w=2,q=0,r=2,stop=2,late=1,y=0,gate=1,c=0", "w=2,q=2,r=3,stop=3,late=0,y=0,gate=2,c=0")
 			// requests still on their way through the network when Stop is called
-			out = append(out, "w=1,q=1,r=2,stop=2,late=1,y=1,async=1,c=0", "w=1,q=0,r=2,stop=1,late=1,y=0,async=1,c=0", "w=2,q=1,r=2,stop=2,late=0,y=0,async=1,c=0")
+			out = append(out, "w=1,q=1,r=2,stop=2,late=1,y=0,async=1,c=0", "w=1,q=0,r=2,stop=1,late=1,y=0,async=1,c=0", "w=2,q=1,r=2,stop=2,late=0,y=0,async=1,c=0")
 			if tier == "thorough" {
 				out = append(out, "w=1,q=0,r=3,stop=3,late=1,y=1,async=1,c=0", "w=1,q=1,r=2,stop=2,late=0,y=1,s=2,on=2,async=1,c=0")
 				out = append(out, "w=2,q=1,r=3,stop=2,late=1,y=1,junk=3,c=0", "w=1,q=2,r=3,stop=3,late=0,y=0,junk=3,c=0")
@@ -296,7 +296,15 @@ func init() {
 		},
 		Make: vfSrvMake,
 		Bound: func(tier, scn string) (int, bool) {
-			if strings.Contains(scn, "slow=1") || strings.Contains(scn, "async=1") {
+			if strings.Contains(scn, "async=1") {
+				// the network thread multiplies the interleavings: non-preemptive schedules (all
+				// choices at blocking points, all data choices) in the quick tier
+				if tier == "thorough" {
+					return 1, true
+				}
+				return 0, true
+			}
+			if strings.Contains(scn, "slow=1") {
 				return 1, true
 			}
 			heavy := !strings.HasSuffix(scn, "c=0") || strings.HasPrefix(scn, "w=2") || strings.Contains(scn, "s=2")
